@@ -204,7 +204,11 @@ Definition alterable_add_column (to : table) (c : column) : bool :=
 Definition alterable (to : table) (cs : list change) : bool :=
   forallb (fun c =>
     match c with
-    | DropIndex _ | AddIndex _ => true
+    | AddIndex _ => true
+    | DropIndex n =>      (* the index behind an inline UNIQUE constraint cannot be dropped: rebuild
+                             (fix "sqlite planner rebuilds the table when the dropped index backs an
+                             inline UNIQUE constraint"; before it this arm was [true]) *)
+        match has_prefix SQLITE_AUTOINDEX n with Some _ => false | None => true end
     | AddColumn n => match find_col n (t_cols to) with
                      | Some col => alterable_add_column to col
                      | None => false       (* cannot happen for a change list of the differ *)
